@@ -1,5 +1,6 @@
 import DepLogic.Model.Tags
 import DepLogic.Properties.C05
+import DepLogic.Properties.C04
 /-
   C08 — wheel python/ABI compatibility = some Python in requires_python can load it.
 
@@ -10,8 +11,10 @@ import DepLogic.Properties.C05
   `exists_of_compatible` : conversely an accepted wheel has a canonical, non-empty intersection
   (on a dense version line: an actual common version, C05.isEmpty_exact);
   `score_shape` : the first three score components are (major, minor or 0, native 2 / abi3 1 / none 0).
-  The reading of the wheel range as "major.minor = X.Y" is the wildcard lemma shared with C04
-  (differentially checked; proof pending, see DESIGN.md).
+  `wheelSpec_reads` : the range the tag pair denotes admits a final interpreter version exactly
+  when PEP 425's reading of the tag does (`cpXY`: release starts with X.Y; `pyXY`: same major and
+  at least X.Y; `pyX`/`cpX`: release starts with X; abi3: at least X.Y) — through C04's leaf
+  theorem for `>=` and `==V.*` and C01.
 -/
 namespace DepLogic
 namespace C08
@@ -56,6 +59,18 @@ theorem exists_of_compatible {α : Type} [LinPre α] [C05.DenseUnbounded α] (w 
   obtain ⟨v, hv⟩ := C05.canon_nonempty _ (and_canon w rp hw hrp) h
   exact ⟨v, (Spec.and_mem w rp v).1 hv⟩
 
+/-- the same without density, over cuts (PEP 440 included): an accepted wheel's range and
+    requires_python share a position at / just below / just above a bound -/
+theorem exists_cut_of_compatible {α : Type} [LinPre α] (a0 : α) (w rp : Spec α)
+    (hw : Canon w) (hrp : Canon rp) (h : (w.and rp).isEmpty = false) : ∃ x s, w.memC x s ∧ rp.memC x s := by
+  apply Classical.byContradiction
+  intro hne
+  have hall : ∀ x s, ¬ (w.and rp).memC x s := by
+    intro x s hm
+    exact hne ⟨x, s, (Spec.and_memC w rp x s).1 hm⟩
+  have := (C05.isEmpty_exact_cuts a0 _ (and_canon w rp hw hrp)).2 hall
+  rw [h] at this; cases this
+
 /-- score: (major, minor or 0, native 2 > abi3 1 > none 0) -/
 theorem score_shape (rp : Spec Ver) (impl : Option Impl) (t : PyAbi) (s : Nat × Nat × Nat)
     (h : evalPyCore rp impl t = some s) :
@@ -65,6 +80,66 @@ theorem score_shape (rp : Spec Ver) (impl : Option Impl) (t : PyAbi) (s : Nat ×
   repeat' split at h
   all_goals simp_all [pyScore]
   all_goals grind
+
+/-- PEP 425's reading of a (python tag, abi tag) pair on a final interpreter version -/
+def tagAdmits (t : PyAbi) (v : Ver) : Option Bool :=
+  if t.abiImpl == "abi3" then
+    (verOf t.major t.minor (some 0)).map fun rel => decide (LinPre.le ({ release := rel } : Ver) v)
+  else if !t.major.isEmpty && !t.minor.isEmpty && t.impl == "py" then
+    match verOf t.major t.minor none, digitsToNat? t.major with
+    | some rel, some M => some (decide (LinPre.le ({ release := rel } : Ver) v) && Pep440.wildMatch { release := [M] } v)
+    | _, _ => none
+  else if !t.major.isEmpty && !t.minor.isEmpty then
+    (verOf t.major t.minor none).map fun rel => Pep440.wildMatch { release := rel } v
+  else
+    (digitsToNat? t.major).map fun M => Pep440.wildMatch { release := [M] } v
+
+theorem any_and_mem (s : Spec Ver) (v : Ver) : ((Spec.range {}).and s).mem v ↔ s.mem v := by
+  rw [Spec.and_mem]; simp [Spec.mem, Range.mem]
+
+/-- the specifier built for the tag pair admits exactly the final versions PEP 425 says it runs on -/
+theorem wheelSpec_reads (t : PyAbi) (w : Spec Ver) (h : wheelSpec t = some w) (v : Ver) (hv : v.isFinal = true) :
+    ∃ b, tagAdmits t v = some b ∧ (b = true ↔ w.mem v) := by
+  have ge_leaf : ∀ (p : Ver) (s : Spec Ver), fromClause ⟨.ge, p, false⟩ = some s →
+      (decide (LinPre.le p v) = true ↔ s.mem v) :=
+    fun p s hs => C04.leaf_exact ⟨.ge, p, false⟩ v hv s _ hs rfl
+  have wild_leaf : ∀ (p : Ver) (s : Spec Ver), fromClause ⟨.eq, p, true⟩ = some s →
+      (Pep440.wildMatch p v = true ↔ s.mem v) :=
+    fun p s hs => C04.leaf_exact ⟨.eq, p, true⟩ v hv s _ hs rfl
+  unfold wheelSpec at h
+  unfold tagAdmits
+  split at h
+  · rename_i habi
+    simp only [habi, if_true]
+    simp only [abi3Range, Option.bind_eq_some_iff, Option.map_eq_some_iff] at h
+    obtain ⟨rel, hrel, s, hs, rfl⟩ := h
+    exact ⟨decide (LinPre.le ({ release := rel } : Ver) v), by simp [hrel], by rw [any_and_mem]; exact ge_leaf _ s hs⟩
+  · rename_i habi
+    simp only [habi, Bool.false_eq_true, if_false]
+    unfold wheelRange at h
+    split at h
+    · rename_i hc
+      simp only [hc, if_true]
+      split at h
+      · rename_i rel M hrel hM
+        simp only [Option.bind_eq_some_iff, Option.map_eq_some_iff] at h
+        obtain ⟨a, ha, b, hb, rfl⟩ := h
+        refine ⟨decide (LinPre.le ({ release := rel } : Ver) v) && Pep440.wildMatch { release := [M] } v, by simp [hrel, hM], ?_⟩
+        rw [Spec.and_mem, any_and_mem, any_and_mem, Bool.and_eq_true, ge_leaf _ a ha, wild_leaf _ b hb]
+      · simp at h
+    · rename_i hc
+      simp only [hc, Bool.false_eq_true, if_false]
+      split at h
+      · rename_i hc2
+        simp only [hc2, if_true]
+        simp only [Option.bind_eq_some_iff, Option.map_eq_some_iff] at h
+        obtain ⟨rel, hrel, a, ha, rfl⟩ := h
+        exact ⟨Pep440.wildMatch { release := rel } v, by simp [hrel], by rw [any_and_mem]; exact wild_leaf _ a ha⟩
+      · rename_i hc2
+        simp only [hc2, Bool.false_eq_true, if_false]
+        simp only [Option.bind_eq_some_iff, Option.map_eq_some_iff] at h
+        obtain ⟨M, hM, a, ha, rfl⟩ := h
+        exact ⟨Pep440.wildMatch { release := [M] } v, by simp [hM], by rw [any_and_mem]; exact wild_leaf _ a ha⟩
 
 /-- non-vacuity: `py36-none` under `>=3.8` is compatible (the repaired defect D16) -/
 example : evalPyCore (.range { min := some { release := [3, 8] }, incMin := true }) none
